@@ -253,7 +253,10 @@ def check_property(pid, tier, seed):
             pid, path, fl[0]["oid"], suffix))
 
     # evidence
-    n_obl = sum(len(u["obligations"]) for u in units if not u.get("bounded"))
+    # obligations that fail and are recorded as known findings are not claimed: they are listed under
+    # known_findings / known_finding_obligations and left out of the proof-level obligations count
+    kf_ids = set(k[0] for k in known_hits)
+    n_obl = sum(len([o for o in u["obligations"] if o["id"] not in kf_ids]) for u in units if not u.get("bounded"))
     def _discharged(u):
         if u.get("bounded"):
             return 0
@@ -300,6 +303,7 @@ def check_property(pid, tier, seed):
         not_covered=spec.get("not_covered", []),
         undecided=undecided,
         known_findings=[k[0] for k in known_hits],
+        known_finding_obligations=[dict(id=k[0], what_fails=k[1][:400]) for k in known_hits],
     )
     wall = time.time() - t0
     C.write_evidence(pid, tier, seed, level, coverage, spec.get("assumptions", []) + P.COMMON_ASSUMPTIONS,
